@@ -1,11 +1,11 @@
 #!/bin/sh
 # apply each behaviour-preserving refactor to /repo, confirm the repository's own suite still passes, run EVERY quick
 # check, undo; a VIOLATION line here is a false alarm of the machinery (or, with no-failing-input-found, a tie that the
-# refactor invalidated).   usage: run_harmless.sh [ids...]
+# refactor invalidated).   usage: [CHECKS="C01 C13"] [HS="h1 h2"] run_harmless.sh [ids...]
 cd /verif
 export GOFLAGS=-mod=mod GOPROXY=off GOSUMDB=off GOTOOLCHAIN=local
 ids=${@:-$(ls harmless)}
-all="C01 C02 C03 C04 C05 C06 C07 C08 C09 C10 C11 C12 C13 C14 C15 C16 C17 C18 C19 C20"
+all=${CHECKS:-"C01 C02 C03 C04 C05 C06 C07 C08 C09 C10 C11 C12 C13 C14 C15 C16 C17 C18 C19 C20"}
 for id in $ids; do
   for h in ${HS:-h1 h2 h3 h4}; do
     d=/verif/harmless/$id/$h/patch.diff
